@@ -156,6 +156,11 @@ func nameClassV(v ssa.Value, depth int, seen map[ssa.Value]bool) (string, bool, 
 		case n == "(go/types.Type).String" || strings.HasSuffix(n, ").String"):
 			return "type-string", true, "printed type"
 		}
+		// a helper of the translator that computes the name and records the dependency itself: every
+		// returned value is passed to addDep in the helper before it is returned
+		if g := calleeOf(&x.Call); g != nil && g.Pkg != nil && g.Pkg.Pkg.Path() == Mod && helperRecordsDep(g) {
+			return "recorded-by-helper", false, "the helper " + g.Name() + " passes the name it returns to addDep itself"
+		}
 		return "call:" + n, true, "computed by " + n
 	case *ssa.UnOp:
 		if o, fld, ok := fieldOf(x); ok {
@@ -1005,4 +1010,41 @@ func recordMark(f *ssa.Function) (ssa.Instruction, string, string, bool) {
 		}
 	}
 	return st, idKey, testKey, st != nil
+}
+
+// helperRecordsDep: g returns a single string, and every return value is also the argument of an addDep call
+// in g that dominates the return.
+func helperRecordsDep(g *ssa.Function) bool {
+	if g.Signature.Results().Len() != 1 || len(g.Blocks) == 0 {
+		return false
+	}
+	var deps []*ssa.Call
+	for _, b := range g.Blocks {
+		for _, in := range b.Instrs {
+			if c, ok := in.(*ssa.Call); ok && strings.HasSuffix(calleeName(c), "depTracker).addDep") {
+				deps = append(deps, c)
+			}
+		}
+	}
+	if len(deps) == 0 {
+		return false
+	}
+	n := 0
+	for _, b := range g.Blocks {
+		ret, ok := b.Instrs[len(b.Instrs)-1].(*ssa.Return)
+		if !ok {
+			continue
+		}
+		n++
+		okRet := false
+		for _, d := range deps {
+			if len(d.Call.Args) >= 2 && sk(d.Call.Args[1]) == sk(ret.Results[0]) && dominatesInstr(d, ret) {
+				okRet = true
+			}
+		}
+		if !okRet {
+			return false
+		}
+	}
+	return n > 0
 }
